@@ -940,9 +940,15 @@ Proof. induction l as [|a r IH]; intros w; simpl; [split; reflexivity|]. destruc
 Lemma wf_same_E w w' : n w' = n w -> E w' = E w -> wf w -> wf w'.
 Proof. intros Hn HE. apply wf_same_shape; [exact Hn|]. intros x. rewrite HE. repeat split; reflexivity. Qed.
 
+Lemma fold_prc_shrink c p es : forall w, shrink w (fold_left (fun w e => parent_remove_child c w p e) es w).
+Proof.
+  induction es as [|e r IH]; intros w; simpl; [apply shrink_refl|].
+  eapply shrink_trans; [apply parent_remove_child_shrink | apply IH].
+Qed.
+
 Lemma step_wf c w a : wf w -> wf (fst (step c w a)).
 Proof.
-  intros H. destruct a as [p|p|o|o ds|g ds|e b|e|e| |k|e]; unfold step.
+  intros H. destruct a as [p|p|o|o ds|g ds|e b|e|e| |k|e|es]; unfold step.
   - destruct (attachedb w p && kind_eqb (ekind (E w p)) KGroup) eqn:G; [|exact H]. simpl.
     apply andb_true_iff in G as [Ga Gk]. apply kind_eqb_eq in Gk.
     apply wf_create; [exact H | apply attachedb_lt; exact Ga | congruence | congruence | discriminate].
@@ -989,6 +995,8 @@ Proof.
       (apply wf_same_E with (w := w); [| |exact H]; simpl; [apply (proj2 (E_fold_del_flat _ w)) | apply (proj1 (E_fold_del_flat _ w))]).
   - destruct (Nat.ltb e (n w)); [|exact H]. destruct (memb e (reg w)); [|exact H].
     destruct (memb e (held w)); [exact H|]. simpl. apply wf_same_E with (w := w); [reflexivity | reflexivity | exact H].
+  - destruct es as [|e0 r]; [exact H|]. destruct (forallb _ (e0 :: r)); [|exact H]. cbn [fst].
+    eapply wf_shrink; [apply fold_prc_shrink | exact H].
 Qed.
 
 Theorem run_wf c : forall h w, wf w -> wf (run c w h).
